@@ -198,6 +198,10 @@ type Cache struct {
 	// This number is the number of pending or failed WriteSnaphot attempts since the last successful one.
 	snapshotAttempts int
 
+	// snapshotRetry is true when the snapshot handed out by the last call to
+	// Snapshot is the one of an earlier, failed attempt.
+	snapshotRetry bool
+
 	stats         *CacheStatistics
 	lastSnapshot  time.Time
 	lastWriteTime time.Time
@@ -402,8 +406,10 @@ func (c *Cache) Snapshot() (*Cache, error) {
 	// Did a prior snapshot exist that failed?  If so, return the existing
 	// snapshot to retry.
 	if c.snapshot.Size() > 0 {
+		c.snapshotRetry = true
 		return c.snapshot, nil
 	}
+	c.snapshotRetry = false
 
 	c.snapshot.store, c.store = c.store, c.snapshot.store
 	snapshotSize := c.Size()
@@ -422,6 +428,14 @@ func (c *Cache) Snapshot() (*Cache, error) {
 	c.updateSnapshots()
 
 	return c.snapshot, nil
+}
+
+// snapshotIsRetry reports whether the snapshot in progress was created by an
+// earlier attempt that failed, i.e. it does not contain writes made since.
+func (c *Cache) snapshotIsRetry() bool {
+	c.mu.RLock()
+	defer c.mu.RUnlock()
+	return c.snapshotRetry
 }
 
 // Deduplicate sorts the snapshot before returning it. The compactor and any queries
